@@ -324,10 +324,11 @@ func init() {
 		orch(pkgRC, "VerifC07Runtime3", 1, "runtime scripts of 3 calls", "done"),
 		orch(pkgRC, "VerifC07Runtime2", 2, "runtime scripts of 2 calls, <= 2 delays", "done"),
 		orch(pkgRC, "VerifC07Ext3", 1, "extension scripts of 3 calls", "done"),
-		orch(pkgRC, "VerifC07Both22", 1, "2+2 calls, <= 1 delay", "done"),
-		orch(pkgRC, "VerifC07Runtime2ThenStall", 2, "", "done"),
-		orch(pkgRC, "VerifC07Runtime2ThenExit", 2, "", "done"),
-		orch(pkgRC, "VerifFullStallThenStall", 3, "", "scenario-done"),
+		orch(pkgRC, "VerifC07Both11", 2, "1+1 calls, <= 2 delays", "done"),
+		orch(pkgRC, "VerifC07Both22", 0, "2+2 calls, base schedule", "done"),
+		orch(pkgRC, "VerifC07Runtime2ThenStall", 1, "two faulty generations", "done"),
+		orch(pkgRC, "VerifC07Runtime2ThenExit", 1, "two faulty generations", "done"),
+		orch(pkgRC, "VerifFullStallThenStall", 3, "two consecutive timeouts, <= 3 delays", "scenario-done"),
 		expiry(orch(pkgRC, "VerifFullRaceInit2", 2, "expiry at any point including init", "scenario-done")),
 	}
 	for _, h := range c07t {
@@ -347,10 +348,10 @@ func init() {
 		orch(pkgRC, "VerifC08LateExt", 0, "late notification, one extension (base schedule)", "done"),
 	}
 	c08t := []*harnessSpec{
-		orch(pkgRC, "VerifC08Settled", 2, "", "done"),
-		orch(pkgRC, "VerifC08SettledExt", 1, "", "done"),
-		orch(pkgRC, "VerifC08Late", 2, "", "done"),
-		orch(pkgRC, "VerifC08LateExt", 1, "", "done"),
+		orch(pkgRC, "VerifC08Settled", 2, "<= 2 delays", "done"),
+		orch(pkgRC, "VerifC08SettledExt", 1, "one extension, <= 1 delay", "done"),
+		orch(pkgRC, "VerifC08Late", 1, "late notification, <= 1 delay", "done"),
+		orch(pkgRC, "VerifC08LateExt", 1, "late notification, one extension, <= 1 delay", "done"),
 	}
 	for _, h := range c08t {
 		h.maxPaths = 1500000
